@@ -28,7 +28,7 @@ VOther(kind) == [t |-> kind]
 
 IsNumLike(x) == x.t \in {"num", "float"}
 EmptyEnv == [base |-> {}, units |-> [u \in {} |-> VNone], prefixes |-> <<>>, ans |-> VNone, subst |-> {},
-             closed |-> TRUE, textbook |-> FALSE]
+             closed |-> TRUE, textbook |-> FALSE, hasq |-> FALSE]
 
 (* ---- name lookup as Registry::lookup does it (registry.rs:29-70) ---- *)
 IsPrefixSeq(p, s) == Len(p) <= Len(s) /\ SubSeq(s, 1, Len(p)) = p
